@@ -483,10 +483,86 @@ def update_level_dynamic_epsilon(ctx):
     return first
 
 
+def update_level_dynamic_potential(ctx):
+    """with a time-dependent applied vector potential the update of step n is solved with the covariant Laplacian of A(t^n):
+    the reference Laplacian is built from scratch (a fresh MeshOperators object) for the potential evaluated here from the
+    Parameter itself, not taken from the solver"""
+    import zoo
+    import runs
+    from tdgl.finite_volume.operators import MeshOperators
+    from tdgl.solver.options import SparseSolver
+    from tdgl.sources import ConstantField, LinearRamp
+
+    rng = ctx.rng
+    first = None
+    for terminal_psi in (None, 0.0):
+        dev = zoo.make_device("bar_hole", rng, max_edge_length=1.0, gamma=float(rng.choice([1.0, 10.0])))
+        dt = 2e-3
+        opts = runs.options(adaptive=False, dt_init=dt, terminal_psi=terminal_psi)
+        A_param = LinearRamp(tmin=0.0, tmax=3.0) * ConstantField(1.2, field_units=opts.field_units, length_units=dev.length_units)
+        ref = runs.Reference(dev, opts, 2, applied_vector_potential=A_param)
+        solver = ref.solver
+        if not solver.dynamic_vector_potential:
+            raise V.Infra("the solver does not treat the ramped field as time-dependent")
+        mesh = dev.mesh
+        n, E = len(mesh.sites), solver.num_edges
+        em = mesh.edge_mesh
+        tsites = np.unique(np.concatenate([t_["sites"] for t_ in zoo.independent_terminals(dev).values()])) if terminal_psi is not None else None
+        A_prev = np.asarray(ref.states[-1]["applied_vector_potential"])
+        for rep in range(4 if ctx.quick else 24):
+            t_now = float(rng.uniform(0.3, 2.9))
+            psi = 0.8 * (rng.normal(size=n) + 1j * rng.normal(size=n)) / np.sqrt(2)
+            mu = rng.normal(size=n) * 0.3
+            # A(t_now) from the Parameter: xi-scaled positions back to length units, A_scale as the solver states it
+            xi = dev.layer.coherence_length
+            A_now = np.asarray(A_param(em.centers[:, 0] * xi, em.centers[:, 1] * xi, dev.layer.z0 * np.ones(E), t=t_now))[:, :2]
+            A_now = float(solver.A_scale) * (A_now.to(f"{opts.field_units} * {dev.length_units}").magnitude if hasattr(A_now, "to") else A_now)
+            mo = MeshOperators(mesh, SparseSolver.SUPERLU, fixed_sites=tsites, fix_psi=terminal_psi is not None)
+            mo.build_operators()
+            mo.set_link_exponents(A_now)
+            try:
+                res = solver.update({"step": 3 + rep, "time": t_now, "dt": dt}, ref.rs, dt, psi=psi.copy(), mu=mu.copy(), supercurrent=np.zeros(E), normal_current=np.zeros(E),
+                                    induced_vector_potential=np.zeros((E, 2)), applied_vector_potential=A_prev.copy())
+            except RuntimeError as e:
+                v0 = dict(psi=psi, abs_sq=np.abs(psi) ** 2, mu=mu, eps=np.asarray(solver.epsilon) * np.ones(n), gamma=solver.gamma, u=solver.u, dt=dt, M=mo.psi_laplacian)
+                ctx.case(("update-dynamic-potential", rep, "raised"), nontrivial=True)
+                if float(np.min(oracle_zw(v0)[3])) > 1e-9:
+                    rp = dict(call=rep, time=t_now, error=str(e)[:120])
+                    ctx.fail("update:refused-although-solvable", f"TDGLSolver.update (time-dependent vector potential) refused a state whose site equations all have a solution: {rp['error']}", rp)
+                    first = first or dict(key="update:refused-although-solvable", what=rp["error"], **rp)
+                    break
+                continue
+            dt_out, psi2 = float(res[0]), np.asarray(res[1])
+            A_rep = np.asarray(res[6])
+            A_prev = A_rep
+            sc_ = max(float(np.abs(A_now).max()), 1e-300)
+            ctx.tol("A(t) reported by the update vs the Parameter evaluated by the harness (rel)", float(np.abs(A_rep - A_now).max()) / sc_, 1e-12)
+            v = dict(psi=psi, abs_sq=np.abs(psi) ** 2, mu=mu, eps=np.asarray(solver.epsilon) * np.ones(n), gamma=solver.gamma, u=solver.u, dt=dt_out, M=mo.psi_laplacian)
+            z, w, b, disc, az2, aw2 = oracle_zw(v)
+            free_ = np.arange(n) if tsites is None else np.setdiff1d(np.arange(n), tsites)
+            bad = check_answer(v, (psi2[free_], (np.abs(psi2) ** 2)[free_]), free_, z, w, b, disc, az2, aw2)
+            ctx.case(("update-dynamic-potential", repr(terminal_psi), rep), nontrivial=True)
+            ctx.count("update_level_dynamic_potential_calls")
+            if float(np.abs(A_rep - A_now).max()) > 1e-12 * sc_:
+                rp = dict(call=rep, time=t_now, max_diff=float(np.abs(A_rep - A_now).max()))
+                ctx.fail("update:wrong-potential-time", f"the applied vector potential reported by the update at t = {t_now:.3f} is not the Parameter evaluated at that time", rp)
+                first = first or dict(key="update:wrong-potential-time", what="reported A differs", **rp)
+                break
+            if bad:
+                i, what = bad[0]
+                rp = dict(call=rep, time=t_now, site=int(i), detail=what, terminal_psi=repr(terminal_psi))
+                ctx.fail("update:stale-laplacian-under-ramp", f"with a time-dependent vector potential the update at t = {t_now:.3f} does not solve the site equation built with the covariant Laplacian "
+                         f"of A(t) (rebuilt from scratch): {what}", rp)
+                first = first or dict(key="update:stale-laplacian-under-ramp", what=what, **rp)
+                break
+    return first
+
+
 def run(ctx):
     step_level(ctx)
     update_level(ctx)
     update_level_dynamic_epsilon(ctx)
+    update_level_dynamic_potential(ctx)
     nvec = 40 if ctx.quick else 1500
     n = 256 if ctx.quick else 512
     for v in boundary_vectors(ctx.rng, n):
